@@ -16,6 +16,9 @@ EXTENDS Integers, Sequences, FiniteSets, FiniteSetsExt, SequencesExt, Functions,
 (* sums go through the least common denominator (TLC integers are 32 bit and TLC aborts on overflow) *)
 RAddL(x, y) == LET g == GCD(x[2], y[2]) IN Norm(x[1] * (y[2] \div g) + y[1] * (x[2] \div g), (x[2] \div g) * y[2])
 RSumSet(S, g(_))  == FoldSet(LAMBDA x, acc : RAddL(g(x), acc), R(0), S)
+(* product with the cross factors cancelled first *)
+RMulS(x, y) == LET g1 == GCD(Abs(x[1]), y[2])  g2 == GCD(Abs(y[1]), x[2])
+               IN IF x[1] = 0 \/ y[1] = 0 THEN R(0) ELSE <<(x[1] \div g1) * (y[1] \div g2), (x[2] \div g2) * (y[2] \div g1)>>
 RProdSet(S, g(_)) == FoldSet(LAMBDA x, acc : RMul(g(x), acc), R(1), S)
 RSumF(f)  == RSumSet(DOMAIN f, LAMBDA x : f[x])
 ISumF(f)  == FoldSet(LAMBDA x, acc : f[x] + acc, 0, DOMAIN f)
@@ -112,7 +115,9 @@ SlateBallots(iv) == {b \in PermsOf(UNION {Supp(iv[s]) : s \in DOMAIN iv}) : TRUE
 BTPairs(b, W) == RProdSet({p \in (DOMAIN b) \X (DOMAIN b) : p[1] < p[2]},
                           LAMBDA p : RDiv(W[b[p[1]]], RAdd(W[b[p[1]]], W[b[p[2]]])))
 LCD(W) == FoldSet(LAMBDA c, acc : (W[c][2] * acc) \div GCD(W[c][2], acc), 1, DOMAIN W)
-IntW(W) == LET l == LCD(W) IN [c \in DOMAIN W |-> W[c][1] * (l \div W[c][2])]
+IntW(W) == LET l == LCD(W)  V == [c \in DOMAIN W |-> W[c][1] * (l \div W[c][2])]
+               g == FoldSet(LAMBDA c, acc : GCD(V[c], acc), 0, DOMAIN W)
+           IN [c \in DOMAIN W |-> V[c] \div g]
 BTWeightI(b, V) == R(FoldSet(LAMBDA p, acc : V[b[p[1]]] * acc, 1, {p \in (DOMAIN b) \X (DOMAIN b) : p[1] < p[2]}))
 BTWeight(b, W) == BTWeightI(b, IntW(W))
 NameBTProbW(b, W) ==
@@ -213,8 +218,8 @@ SlateBTpi(own, c, cnt) == [t \in Arrs(cnt) |-> SBTWeight(t, own, c)]
 (* facts about a kernel K on the state space DOMAIN pi *)
 KAt(K, s, t) == IF s \in DOMAIN K /\ t \in DOMAIN K[s] THEN K[s][t] ELSE R(0)
 RowsSumToOne(K)  == \A s \in DOMAIN K : RSumF(K[s]) = R(1)
-DetailedBalance(K, pi) == \A s, t \in DOMAIN pi : RMul(pi[s], KAt(K, s, t)) = RMul(pi[t], KAt(K, t, s))
-Stationary(K, pi) == \A t \in DOMAIN pi : RSumSet(DOMAIN pi, LAMBDA s : RMul(pi[s], KAt(K, s, t))) = pi[t]
+DetailedBalance(K, pi) == \A s, t \in DOMAIN pi : RMulS(pi[s], KAt(K, s, t)) = RMulS(pi[t], KAt(K, t, s))
+Stationary(K, pi) == \A t \in DOMAIN pi : RSumSet(DOMAIN pi, LAMBDA s : RMulS(pi[s], KAt(K, s, t))) = pi[t]
 RECURSIVE ReachSet(_,_)
 ReachSet(K, seen) ==
   LET nxt == seen \cup {t \in UNION {DOMAIN K[s] : s \in seen \cap DOMAIN K} : \E s \in seen \cap DOMAIN K : t \in DOMAIN K[s] /\ K[s][t][1] > 0}
